@@ -1,5 +1,5 @@
-CONSTANTS MaxIter = 5  Hist = 3  FTop = 3  GTop = 2  AtolLv = 1  SuccFTol = 1
-          MaxLs = 4  MaxInf = 2  AMax = 4  InfTop = 2  Convex = TRUE  RedBits = 10
+CONSTANTS MaxIter = 8  Hist = 3  FTop = 4  GTop = 3  AtolLv = 1  SuccFTol = 1
+          MaxLs = 5  MaxInf = 2  AMax = 5  InfTop = 2  Convex = TRUE  RedBits = 10
 SPECIFICATION Spec
 INVARIANT TypeOK
 INVARIANT ProtoOK
@@ -7,6 +7,7 @@ INVARIANT Bounded
 INVARIANT NoPanic
 INVARIANT HistoryOK
 INVARIANT WindowOK
+INVARIANT ScaleOK
 INVARIANT AtDone
 PROPERTY Monotone
 CHECK_DEADLOCK FALSE
